@@ -5,6 +5,7 @@ package obs
 import (
 	"fmt"
 	"runtime"
+	"time"
 
 	"github.com/Tom-Johnston/mamba/graph"
 )
@@ -160,4 +161,18 @@ func (o Obs) Ranks() []int {
 		}
 	}
 	return r
+}
+
+// SafeT is Safe with a watchdog: if f has not returned after d the call is abandoned (its
+// goroutine keeps running until the process exits) and "timeout" is returned.  Used where a
+// defect could turn into an endless loop; a timeout is confirmed by replay before it is reported.
+func SafeT(d time.Duration, f func()) string {
+	done := make(chan string, 1)
+	go func() { done <- Safe(f) }()
+	select {
+	case r := <-done:
+		return r
+	case <-time.After(d):
+		return "timeout"
+	}
 }
